@@ -25,6 +25,34 @@ from nix_manipulator.expressions.trivia import (
 MAX_INLINE_LIST_WIDTH = 100
 
 
+def _coerce_list_item(item: Any) -> NixExpression:
+    """Coerce a list element, parenthesising what cannot stand bare in a list.
+
+    List elements are select-level expressions: `[ -1 ]` is a syntax error in
+    Nix, a negative number literal has to be written `[ (-1) ]`.
+    """
+    expr = coerce_expression(item)
+    if _is_negative_number_literal(expr):
+        from nix_manipulator.expressions.parenthesis import Parenthesis
+
+        # Comments attached to the number stay outside the parentheses.
+        bare = expr.model_copy(update={"before": [], "after": []})
+        return Parenthesis(value=bare, before=expr.before, after=expr.after)
+    return expr
+
+
+def _is_negative_number_literal(expr: NixExpression) -> bool:
+    """Tell whether an expression renders as a literal with a leading minus."""
+    from nix_manipulator.expressions.float import FloatExpression
+    from nix_manipulator.expressions.primitive import IntegerPrimitive
+
+    if isinstance(expr, IntegerPrimitive):
+        return expr.value < 0
+    if isinstance(expr, FloatExpression):
+        return expr.value.startswith("-")
+    return False
+
+
 def process_list(node: Node):
     """Parse a list node into values and inner trivia."""
     from nix_manipulator.mapping import tree_sitter_node_to_expression
@@ -135,7 +163,7 @@ class NixList(TypedExpression):
         if not self.value:
             return "[ ]"
         items = [
-            coerce_expression(item).rebuild(indent=indent, inline=True)
+            _coerce_list_item(item).rebuild(indent=indent, inline=True)
             for item in self.value
         ]
         return f"[ {' '.join(items)} ]"
@@ -190,7 +218,7 @@ class NixList(TypedExpression):
 
         def render_item(item: NixExpression | str | int | bool | float | None) -> str:
             """Render list items consistently based on multiline decision."""
-            expr = coerce_expression(item)
+            expr = _coerce_list_item(item)
             return expr.rebuild(indent=indented, inline=not multiline)
 
         items = [render_item(item) for item in self.value]
